@@ -152,7 +152,7 @@ SkeletonKinds(r) ==
                    skb == [i \in 1..Len(b.data) |-> Skeleton(b.data[i])]
                    sa == Flatten([i \in 1..Len(a.data) |-> Strings(a.data[i])])
                    sb == Flatten([i \in 1..Len(b.data) |-> Strings(b.data[i])])
-                   inTemplate == r.slot \in {"fmt-literal", "fmt-literal-mid", "fmt-no-newline"}
+                   inTemplate == r.slot \in {"fmt-literal", "fmt-literal-mid", "fmt-no-newline", "fmt-ascii"}
                    u == IF inTemplate THEN TildeDoubled(r.u) ELSE r.u
                IN (IF Eager(ska) # Eager(skb) THEN <<"skeleton-differs">> ELSE <<>>)
                   \o (IF Len(sa) # Len(sb) THEN <<"string-count-differs">>
